@@ -3,16 +3,68 @@ import TfelVerif.C25.PropsGen
 namespace TfelVerif.C25.Props
 open Finset TfelVerif TfelVerif.C25 TfelVerif.C25.Spec TfelVerif.C25.Lemmas
 variable {K : Type} [Field K] [LinearOrder K] [IsStrictOrderedRing K] (c c3 : K) (fn : Fns K)
-
+set_option linter.unusedVariables false
+set_option linter.unusedSimpArgs false
+set_option linter.unusedTactic false
+set_option linter.unreachableTactic false
+set_option linter.unusedSectionVars false
 macro "tensor_field" : tactic => `(tactic| (
   repeat' apply And.intro
-  all_goals first | ring | (field_simp; ring) | field_simp))
+  all_goals first | trivial | ring1 | (field_simp; ring1) | field_simp))
+--SECTION
+/-! ## tensorial dilute scheme (`computeDiluteScheme`) -/
 
-theorem SphLoc (K0 G0 K1 G1 : K) (hK0 : 0 < K0) (hG0 : 0 < G0) (hK1 : 0 < K1) (hG1 : 0 < G1) :
-    Gen.SphLoc_all c c3 fn (youngOf K0 G0) (nuOf K0 G0) (youngOf K1 G1) (nuOf K1 G1)
-      = iso6 (sphAk K0 G0 K1) (sphAg K0 G0 G1) := by
-  simp only [Gen.SphLoc_all, kC_of hK0 hG0, gC_of hK0 hG0, kC_of hK1 hG1, gC_of hK1 hG1,
-    kaS9 hK0 hG0, muS4 hK0 hG0, ka3 hK0 hG0 hK1, mu2 hK0 hG0 hG1, iso6, List.cons.injEq, and_true]
-  have hK0' := hK0.ne'; have hG0' := hG0.ne'
+/-- with the localisation tensor of a sphere: `3 K_dil J + 2 G_dil K` -/
+theorem DiluteT_sph (K0 G0 f K1 G1 : K) (hK0 : 0 < K0) (hG0 : 0 < G0) (hK1 : 0 < K1) (hG1 : 0 < G1) :
+    Gen.DiluteT_sph_all c c3 fn (youngOf K0 G0) (nuOf K0 G0) f (youngOf K1 G1) (nuOf K1 G1)
+      = iso6 (3 * (K0 + f * (K1 - K0) * sphAk K0 G0 K1)) (2 * (G0 + f * (G1 - G0) * sphAg K0 G0 G1)) := by
+  simp only [Gen.DiluteT_sph_all, kC_of hK0 hG0, gC_of hK0 hG0, kC_of hK1 hG1, gC_of hK1 hG1,
+    kaS9 hK0 hG0, muS4 hK0 hG0, ka3 hK0 hG0 hK1, mu2 hK0 hG0 hG1,
+    lamC_of hK0 hG0, muC_of hK0 hG0, lamC_of hK1 hG1, muC_of hK1 hG1, iso6, List.cons.injEq, and_true,
+    mul_zero, zero_mul, add_zero, zero_add, mul_one]
   tensor_field
+/-- zero inclusion fraction, arbitrary localisation tensor (36 free components): the matrix stiffness -/
+theorem DiluteT_gen_zero (E0 nu0 Ei nui a00 a01 a02 a03 a04 a05 a10 a11 a12 a13 a14 a15 a20 a21 a22 a23 a24 a25 a30 a31 a32 a33 a34 a35 a40 a41 a42 a43 a44 a45 a50 a51 a52 a53 a54 a55 : K) :
+    Gen.DiluteT_gen_all c c3 fn E0 nu0 0 Ei nui a00 a01 a02 a03 a04 a05 a10 a11 a12 a13 a14 a15 a20 a21 a22 a23 a24 a25 a30 a31 a32 a33 a34 a35 a40 a41 a42 a43 a44 a45 a50 a51 a52 a53 a54 a55
+      = Gen.IsoStiff_EN_all c c3 fn E0 nu0 := by
+  simp only [Gen.DiluteT_gen_all, Gen.IsoStiff_EN_all, zero_mul, add_zero, List.cons.injEq, and_true]
+  tensor_field
+
+/-! ## plane strain: Eshelby tensors of a disk and of an ellipse -/
+
+theorem DiskEshelby (nu : K) (h : 1 - nu ≠ 0) : Gen.DiskEshelby_all c c3 fn nu = mura nu 1 := by
+  simp only [Gen.DiskEshelby_all, mura, List.cons.injEq, and_true]
+  tensor_field
+theorem EllipseEshelby_e1 (nu : K) (h : 1 - nu ≠ 0) : Gen.EllipseEshelby_e1_all c c3 fn nu = mura nu 1 := by
+  simp only [Gen.EllipseEshelby_e1_all, mura, List.cons.injEq, and_true]
+  tensor_field
+/-- aspect ratio `e > 1` (the path of this trace): Mura's tensor for semi-axes `1 : 1/e`, long axis first -/
+theorem EllipseEshelby_gt (nu e : K) (h : 1 - nu ≠ 0) (he : 0 < e) :
+    Gen.EllipseEshelby_gt_all c c3 fn nu e = mura nu (1 / e) := by
+  have he' := he.ne'
+  have h1 : (1 : K) + e ≠ 0 := by positivity
+  have h2 : e + 1 ≠ 0 := by positivity
+  simp only [Gen.EllipseEshelby_gt_all, mura, List.cons.injEq, and_true]
+  tensor_field
+/-- aspect ratio `e ≤ 1` (the path of this trace): Mura's tensor for semi-axes `1 : e`, long axis first -/
+theorem EllipseEshelby_lt (nu e : K) (h : 1 - nu ≠ 0) (he : 0 < e) :
+    Gen.EllipseEshelby_lt_all c c3 fn nu e = mura nu e := by
+  have he' := he.ne'
+  have h1 : (1 : K) + e ≠ 0 := by positivity
+  have h2 : e + 1 ≠ 0 := by positivity
+  simp only [Gen.EllipseEshelby_lt_all, mura, List.cons.injEq, and_true]
+  tensor_field
+/-- the two branches are consistent under `e ↔ 1/e` -/
+theorem EllipseEshelby_inv (nu e : K) (h : 1 - nu ≠ 0) (he : 0 < e) :
+    Gen.EllipseEshelby_lt_all c c3 fn nu e = Gen.EllipseEshelby_gt_all c c3 fn nu (1 / e) := by
+  rw [EllipseEshelby_lt c c3 fn nu e h he, EllipseEshelby_gt c c3 fn nu (1 / e) h (by positivity), one_div_one_div]
+/-- the recorded paths are the expected ones -/
+theorem EllipseEshelby_paths (nu e : K) :
+    (Gen.EllipseEshelby_gt_path c c3 fn nu e → 1 < e) ∧ (Gen.EllipseEshelby_lt_path c c3 fn nu e → e ≤ 1) := by
+  constructor
+  · intro h; simp only [Gen.EllipseEshelby_gt_path] at h; casesm* _ ∧ _; assumption
+  · intro h; simp only [Gen.EllipseEshelby_lt_path, not_lt, gt_iff_lt] at h; casesm* _ ∧ _; assumption
+
+/-! ## Mori–Tanaka = Hashin–Shtrikman -/
+--MTHS
 end TfelVerif.C25.Props
